@@ -98,16 +98,25 @@ def escapedUnicode (a b c d : Nat) : Option Nat :=
     SourceCharacter but not `"` or `\` or LineTerminator | `\u` EscapedUnicode | `\` EscapedCharacter -/
 def stringCharacters : Text → Option Text
   | [] => some []
-  | 92 :: 117 :: a :: b :: c :: d :: t =>
-    match escapedUnicode a b c d, stringCharacters t with
-    | some u, some v => some (u :: v)
-    | _, _ => none
-  | 92 :: e :: t =>
-    match escapedCharacter e, stringCharacters t with
-    | some u, some v => some (u :: v)
-    | _, _ => none
   | c :: t =>
-    if c = 34 ∨ c = 92 ∨ isLineTerm c ∨ !isSourceChar c then none
+    if c = 92 then
+      match t with
+      | [] => none
+      | e :: t1 =>
+        if e = 117 then
+          -- `\u` EscapedUnicode
+          match t1 with
+          | a :: b :: c' :: d :: t2 =>
+            match escapedUnicode a b c' d, stringCharacters t2 with
+            | some u, some v => some (u :: v)
+            | _, _ => none
+          | _ => none
+        else
+          -- `\` EscapedCharacter
+          match escapedCharacter e, stringCharacters t1 with
+          | some u, some v => some (u :: v)
+          | _, _ => none
+    else if c = 34 ∨ isLineTerm c ∨ !isSourceChar c then none
     else (stringCharacters t).map (c :: ·)
 
 /-- StringValue :: `"` StringCharacter* `"` — semantic value of a complete quoted lexeme -/
